@@ -256,6 +256,18 @@ def generator_matrix(cfg):
     enc = _quiet(PolarCodeEncoder, max(1, N // 2), N)
     G2 = enc.get_generator_matrix()
     yield "get_generator_matrix_is_kronecker_power", tuple(G2.shape) == (N, N) and G2.to(torch.int64).tolist() == [[kron_entry(i, j) for j in range(N)] for i in range(N)], f"N={N}"
+    # history: the caller post-processes the matrices it was handed (in place); what a later request returns - from this encoder, from
+    # a new encoder of the same length, from the module function - must still be the Kronecker power
+    want_rows = [[kron_entry(i, j) for j in range(N)] for i in range(N)]
+    with torch.no_grad():
+        G.zero_()
+        G2.fill_(1)
+    G3 = calculate_gm(N, torch.device("cpu"))
+    G4 = enc.get_generator_matrix()
+    enc2 = _quiet(PolarCodeEncoder, max(1, N // 2), N)
+    G5 = enc2.get_generator_matrix()
+    later_ok = all(tuple(g.shape) == (N, N) and g.to(torch.int64).tolist() == want_rows for g in (G3, G4, G5))
+    yield "later_requests_unaffected_by_writes_to_earlier_results", later_ok, f"N={N}: matrices handed out earlier were overwritten in place by the caller"
     # _index_matrix(N): (N/2, m); column c = 1-based upper inputs of the butterflies of span 2^(m-1-c), ascending
     M = _index_matrix(N)
     want = [[i + 1 for i in range(N) if not (i >> (m - 1 - c)) & 1] for c in range(m)]
